@@ -146,7 +146,7 @@ def gen_set(name, n, rng):
     if name == "quirks2":
         return ["case a of 1: x; ^b: y; end", "case a of 1: ^b; 2: c^ := d; end", "case a of 1: begin end ^x", "case a of 1: ; ^", "type t = class a: ^b; c: class of d; e: procedure(f: ^g); end;",
                 "[a < b] procedure c;", "[a < b]\nprocedure c; begin end;", "raise (a < b) c;", "raise [a < b] c; d;", "exports a(b < c) d, e;", "type a = b<c; d = e;", "type a<b = c>d; e = f;", "function a<b(c < d): e; begin end;", "x(a < b, c > d); y[a < b]; z<a>(b);",
-                "property a[read, write: b]: c read d;", "property a[stored] b;", "property a b [stored] c;", "property a: b c [read d, write] write e; f [default];", "property a[b, read]: c; d[write];", "property a[default] read b[nodefault, index];", "property a[b: c; default: d]: e read f default;", "property a[index: b]: c index 1 read d;", "property a: b read c[read] write d[e, write]; default;", "property a[b: c]: d read e; default; f: g;",
+                "property a[read, write: b]: c read d;", "x = class case y; end; case z; end a b c;", "x = record\n  case y;\nend;\ncase z;\nend\nprocedure Foo;\nbegin\n  Bar;\nend;\n", "begin repeat a; until x of y; z; end; w;", "property a[stored] b;", "property a b [stored] c;", "property a: b c [read d, write] write e; f [default];", "property a[b, read]: c; d[write];", "property a[default] read b[nodefault, index];", "property a[b: c; default: d]: e read f default;", "property a[index: b]: c index 1 read d;", "property a: b read c[read] write d[e, write]; default;", "property a[b: c]: d read e; default; f: g;",
                 "asm\n  mov ax, bx\n  ret ; x\n\n  @l: nop end;", "asm mov\r\nax end", "begin asm\nend; x end", "asm //c\n mov {c} ax\n{$D+}\n end",
                 "procedure a(b: array of const; c: d); procedure e(f: array of const);", "procedure a(b: c) (d: e); begin end;", "procedure a(b: c; const d; var e: f = (1)); begin end", "procedure a(b: c = (d)); procedure a(;); procedure a();",
                 "type t = record case a of 1: (b: c); 2: (lbl: d; e: (f, g)); end;", "type t = record case integer of 0: (a: b;); 1: (); end; var x: y;", "type t = record case a of (b: c) end;",
